@@ -1018,6 +1018,18 @@ func TestLocalTree(t *testing.T) {
 		m := &machine{w: world.New(), lastMut: "initial"}
 		defer m.w.Teardown()
 		m.snapshotEntityZero(t)
+		if rapid.IntRange(0, 2).Draw(t, "muteConnection") == 0 {
+			// fault: a connection without a SHIP writer (nothing can be sent to it - every send reports an error)
+			// whose device subscribed to node management before everybody else. What cannot be delivered to it
+			// must not keep the other subscribers from getting their notification.
+			mute := &world.Peer{W: m.w, Idx: 99, Ski: "ski-mute", Addr: "d:_r:mute", Cap: &world.Capture{}}
+			mute.Reader = m.w.Local.SetupRemoteDevice(mute.Ski, nil)
+			defer m.w.Local.RemoveRemoteDeviceConnection(mute.Ski)
+			mute.Send(mute.Msg(model.CmdClassifierTypeCall, mute.NM(), world.LocalNM(), true, nil, world.SubscribeCall(mute.NM(), world.LocalNM(), model.FeatureTypeTypeNodeManagement)))
+			m.w.Sync()
+			world.Label("peer/mute-connection-subscribed-first")
+			m.logf("a connection without writer subscribed to node management")
+		}
 		nPeers := rapid.IntRange(2, 3).Draw(t, "peers")
 		for i := 0; i < nPeers; i++ {
 			// a peer may subscribe before the stack has received its discovery data (its device
